@@ -14,7 +14,9 @@
    handler prints `I silkapi dec <pre-state> <args> CRASH` + `O SANITIZER|ABORT`.
    Per silk_InitDecoder / silk_ResetDecoder call:  I silkapi init <pre-state> / O <post-state>.
 
-   Modes:  rand <seed> <sessions> [quiet]   */
+   Modes:  rand <seed> <sessions> [quiet]      histories through opus_decode*; every silk_stereo_MS_to_LR call inside is also a
+                                               per-sample case (`silkapi mstolr`)
+           ms <seed> <n>                       boundary inputs for silk_stereo_MS_to_LR, per-sample */
 #ifdef HAVE_CONFIG_H
 #include "config.h"
 #endif
@@ -161,10 +163,29 @@ static opus_int rec_decode_frame(silk_decoder_state *ps, ec_dec *d, opus_int16 p
    }
    return r;
 }
+static void pr_hex16(FILE *f, const opus_int16 *p, long n);
+/* per-sample tie of silk_stereo_MS_to_LR: `I silkapi mstolr <state> <p0,p1,fs_kHz,N> <x1> <x2>` / `O ms <state> <x1> <x2>`
+   (x1 / x2 = N+2 samples; the two history slots, not yet written by the caller, are printed as 0) */
+static void ms_case(stereo_dec_state *st, opus_int16 x1[], opus_int16 x2[], const opus_int32 pred[], opus_int fs, opus_int fl)
+{
+   static opus_int16 t[MAX_FRAME_LENGTH + 2];
+   int print = !G.quiet && fl >= 0 && fl <= MAX_FRAME_LENGTH;
+   if (print) {
+      printf("I silkapi mstolr %d,%d,%d,%d,%d,%d %d,%d,%d,%d ", st->pred_prev_Q13[0], st->pred_prev_Q13[1], st->sMid[0], st->sMid[1],
+             st->sSide[0], st->sSide[1], (int)pred[0], (int)pred[1], fs, fl);
+      t[0] = t[1] = 0; memcpy(t + 2, x1 + 2, (size_t)fl * sizeof(opus_int16)); pr_hex16(stdout, t, fl + 2); fputc(' ', stdout);
+      memcpy(t + 2, x2 + 2, (size_t)fl * sizeof(opus_int16)); pr_hex16(stdout, t, fl + 2); fputc('\n', stdout);
+   }
+   silk_stereo_MS_to_LR(st, x1, x2, pred, fs, fl);
+   if (print) {
+      printf("O ms %d,%d,%d,%d,%d,%d ", st->pred_prev_Q13[0], st->pred_prev_Q13[1], st->sMid[0], st->sMid[1], st->sSide[0], st->sSide[1]);
+      pr_hex16(stdout, x1, fl + 2); fputc(' ', stdout); pr_hex16(stdout, x2, fl + 2); fputc('\n', stdout);
+   }
+}
 static void rec_MS_to_LR(stereo_dec_state *st, opus_int16 x1[], opus_int16 x2[], const opus_int32 pred[], opus_int fs, opus_int fl)
 {
    if (G.in_decode) { close_bits(); vapp("mstolr:%ld,%ld,%d,%d;", tmpoff(x1), tmpoff(x2), fs, fl); }
-   silk_stereo_MS_to_LR(st, x1, x2, pred, fs, fl);
+   ms_case(st, x1, x2, pred, fs, fl);
 }
 static opus_int rec_resampler(silk_resampler_state_struct *S, opus_int16 out[], const opus_int16 in[], opus_int32 inLen)
 {
@@ -457,9 +478,49 @@ static void session(vrng *r)
    opus_decoder_destroy(d);
 }
 
+/* boundary inputs for silk_stereo_MS_to_LR: saturating sums, predictors at the extremes of the dequantiser
+   (silk_stereo_pred_quant_Q13 ends +-13732; pred0 = difference of two), interpolation boundary at 8 ms for 8/12/16 kHz */
+static opus_int16 edge16(vrng *r)
+{
+   static const int e[8] = { 32767, -32768, 32766, -32767, 0, 1, -1, 16384 };
+   int k = (int)vbelow(r, 100);
+   return (opus_int16)(k < 45 ? e[vbelow(r, 8)] : k < 70 ? (int)vbelow(r, 65536) - 32768 : (int)vbelow(r, 2001) - 1000);
+}
+static opus_int32 edgepred(vrng *r)
+{
+   static const int e[8] = { 13732, -13732, 27464, -27464, 0, 1, -1, 10050 };
+   int k = (int)vbelow(r, 100);
+   return k < 50 ? e[vbelow(r, 8)] : (int)vbelow(r, 54929) - 27464;
+}
+static void ms_mode(vrng *r, long n)
+{
+   long i; int j;
+   for (i = 0; i < n; i++) {
+      stereo_dec_state st; opus_int32 pred[2];
+      int fs = 8 + 4 * (int)vbelow(r, 3), fl = fs * (vchance(r, 50) ? 10 : 20), uni = vchance(r, 25);
+      opus_int16 *x1 = (opus_int16 *)malloc((size_t)(fl + 2) * sizeof(opus_int16)), *x2 = (opus_int16 *)malloc((size_t)(fl + 2) * sizeof(opus_int16));
+      opus_int16 c1 = edge16(r), c2 = edge16(r);
+      memset(&st, 0, sizeof st);
+      st.pred_prev_Q13[0] = (opus_int16)edgepred(r); st.pred_prev_Q13[1] = (opus_int16)edgepred(r);
+      st.sMid[0] = edge16(r); st.sMid[1] = edge16(r); st.sSide[0] = edge16(r); st.sSide[1] = edge16(r);
+      pred[0] = edgepred(r); pred[1] = edgepred(r);
+      x1[0] = x1[1] = x2[0] = x2[1] = 0;
+      for (j = 2; j < fl + 2; j++) { x1[j] = uni ? c1 : edge16(r); x2[j] = uni ? c2 : edge16(r); }
+      ms_case(&st, x1, x2, pred, fs, fl);
+      G.n_calls++;
+      free(x1); free(x2);
+   }
+   printf("# silkapi-ms cases=%ld\n", n);
+}
+
 int main(int argc, char **argv)
 {
    vrng r; long n, i;
+   if (argc >= 4 && !strcmp(argv[1], "ms")) {
+      r.s = strtoull(argv[2], NULL, 10) * 0x9E3779B97F4A7C15ULL + 0x77;
+      ms_mode(&r, atol(argv[3]));
+      return 0;
+   }
    if (argc < 4 || strcmp(argv[1], "rand")) { fprintf(stderr, "usage: c01_silkapi rand <seed> <sessions> [quiet]\n"); return 64; }
    r.s = strtoull(argv[2], NULL, 10) * 0x9E3779B97F4A7C15ULL + 0x51A9;
    n = atol(argv[3]);
